@@ -116,8 +116,7 @@ type mstream struct {
 	kind     int
 	float    bool
 	agg      effAgg
-	fmode    int
-	fkeys    map[string]bool
+	f        fspec
 	fsig     string
 	delta    bool
 	limit    int
@@ -143,6 +142,9 @@ type mstream struct {
 	fcache map[int]string
 
 	classes []string // labels collected while comparing
+
+	// value-dependent filter: keys for which the filter kept / dropped a value
+	vfKept, vfDropped map[string]bool
 
 	// bookkeeping for classes
 	rawPerKey     map[string]map[int]bool
@@ -193,13 +195,69 @@ func mkMatchKey(name, unit string, agg int, float, mono bool) string {
 	return k
 }
 
-func filterSig(mode int, keys []string) string {
-	if mode == 0 {
-		return "none"
+// fspec is a view's attribute filter as data; keepPair is the filter itself:
+// a pure function of one (key, value) pair. The SDK gets it wrapped as an
+// attribute.Filter, the model applies it to every key-value of a set.
+type fspec struct {
+	mode  int
+	keys  map[string]bool
+	pairs map[string]bool // rendered key=value pairs of FKV
+	pkeys map[string]bool // keys mentioned in FKV
+	ftype string
+	sig   string
+}
+
+func pairKey(key, valueKey string) string { return fmt.Sprintf("%q=%s", key, valueKey) }
+
+func (v View) fspec() fspec {
+	f := fspec{mode: v.Filter, keys: map[string]bool{}, pairs: map[string]bool{}, pkeys: map[string]bool{}, ftype: v.FType}
+	for _, k := range v.Keys {
+		f.keys[k] = true
 	}
-	ks := append([]string{}, keys...)
-	sort.Strings(ks)
-	return strconv.Itoa(mode) + ":" + strings.Join(ks, ",")
+	var ps []string
+	for _, kv := range v.FKV {
+		pk := pairKey(string(kv.K), vk.ValueKey(kv.ToAttr().Value))
+		f.pairs[pk] = true
+		f.pkeys[string(kv.K)] = true
+		ps = append(ps, pk)
+	}
+	sort.Strings(ps)
+	if v.Filter == 0 {
+		f.sig = "none"
+	} else {
+		ks := append([]string{}, v.Keys...)
+		sort.Strings(ks)
+		f.sig = strconv.Itoa(v.Filter) + ":" + strings.Join(ks, ",")
+		if len(ps) > 0 || v.FType != "" {
+			f.sig += "|" + strings.Join(ps, ";") + "|" + v.FType
+		}
+	}
+	return f
+}
+
+func (f fspec) valueDependent() bool { return f.mode >= 3 }
+
+// keepPair decides on one key-value; valueKey is vk.ValueKey (type:payload).
+func (f fspec) keepPair(key, valueKey string) bool {
+	switch f.mode {
+	case 1:
+		return f.keys[key]
+	case 2:
+		return !f.keys[key]
+	case 3:
+		if f.pkeys[key] {
+			return f.pairs[pairKey(key, valueKey)]
+		}
+		return !f.keys[key]
+	case 4:
+		return !f.pairs[pairKey(key, valueKey)] && !f.keys[key]
+	case 5:
+		if f.keys[key] {
+			return strings.HasPrefix(valueKey, f.ftype+":")
+		}
+		return true
+	}
+	return true
 }
 
 type readerModel struct {
@@ -228,13 +286,13 @@ func resolveAll(c Case, limit int) []*readerModel {
 	for r, mode := range c.Readers {
 		rm := &readerModel{mode: mode, byID: map[string]*mstream{}, dropped: map[string]bool{}}
 		rm.feeds = make([][]*mstream, len(c.Insts))
-		add := func(i int, in Inst, vi int, name, unit string, agg effAgg, fmode int, keys []string) {
+		add := func(i int, in Inst, vi int, name, unit string, agg effAgg, f fspec) {
 			num := "int64"
 			if in.Float {
 				num = "float64"
 			}
 			id := strings.ToLower(name) + "|" + unit + "|" + kindNames[in.Kind] + "|" + num
-			fs := filterSig(fmode, keys)
+			fs := f.sig
 			if agg.kind == aDrop {
 				fs = "-"
 			}
@@ -263,12 +321,9 @@ func resolveAll(c Case, limit int) []*readerModel {
 				return
 			}
 			s := &mstream{id: id, name: name, unit: unit, kind: in.Kind, float: in.Float, agg: agg,
-				fmode: fmode, fkeys: map[string]bool{}, fsig: fs, limit: limit, view: vi, blame: -1,
-				delta: deltaFor(mode, in.Kind), pts: map[string]*mpoint{}, fcache: map[int]string{},
+				f: f, fsig: fs, limit: limit, view: vi, blame: -1,
+				delta: deltaFor(mode, in.Kind), pts: map[string]*mpoint{}, fcache: map[int]string{}, vfKept: map[string]bool{}, vfDropped: map[string]bool{},
 				rawPerKey: map[string]map[int]bool{}, everOverflown: map[string]bool{}, everIdent: map[string]bool{}}
-			for _, k := range keys {
-				s.fkeys[k] = true
-			}
 			rm.byID[id] = s
 			rm.streams = append(rm.streams, s)
 			if agg.kind == aDrop {
@@ -298,7 +353,7 @@ func resolveAll(c Case, limit int) []*readerModel {
 				}
 				ra := c.selectorOf(r, in.Kind)
 				before := len(rm.streams)
-				add(i, in, vi, name, unit, effective(v.Agg, v.Bounds, in.Kind, ra), v.Filter, v.Keys)
+				add(i, in, vi, name, unit, effective(v.Agg, v.Bounds, in.Kind, ra), v.fspec())
 				if len(rm.streams) > before && !readerAggIsDefault(ra, in.Kind) {
 					ns := rm.streams[len(rm.streams)-1]
 					ns.explicitDefault = v.Agg == vaDefault
@@ -308,7 +363,7 @@ func resolveAll(c Case, limit int) []*readerModel {
 			if !matched {
 				ra := c.selectorOf(r, in.Kind)
 				before := len(rm.streams)
-				add(i, in, -1, instName(i), in.Unit, effective(vaNone, 0, in.Kind, ra), 0, nil)
+				add(i, in, -1, instName(i), in.Unit, effective(vaNone, 0, in.Kind, ra), View{}.fspec())
 				if len(rm.streams) > before && !readerAggIsDefault(ra, in.Kind) {
 					rm.streams[len(rm.streams)-1].readerChosen = true
 				}
@@ -341,24 +396,19 @@ func resolveAll(c Case, limit int) []*readerModel {
 // ---------------------------------------------------------------------
 // the rule of the statement
 
-func (s *mstream) keep(k string) bool {
-	switch s.fmode {
-	case 1:
-		return s.fkeys[k]
-	case 2:
-		return !s.fkeys[k]
-	}
-	return true
-}
-
 func (s *mstream) filteredKey(setIdx int, set []vk.KV) string {
 	if k, ok := s.fcache[setIdx]; ok {
 		return k
 	}
 	var kept []vk.KV
 	for _, kv := range set {
-		if s.keep(string(kv.K)) {
+		if s.f.keepPair(string(kv.K), vk.ValueKey(kv.ToAttr().Value)) {
 			kept = append(kept, kv)
+		} else if s.f.valueDependent() {
+			s.vfDropped[string(kv.K)] = true
+		}
+		if s.f.valueDependent() && s.f.keepPair(string(kv.K), vk.ValueKey(kv.ToAttr().Value)) {
+			s.vfKept[string(kv.K)] = true
 		}
 	}
 	k := renderKVs(kept)
